@@ -89,6 +89,8 @@ class Opt:
         n = hx(self.name)
         cb = ''.join(' ' + c for c in self.cbs)
         k = self.kind
+        if k == 'sint':       # CFG_SIMPLE_INT (library only: the model has no user variables)
+            return '(sint %s %d %d%s)' % (n, self.flags, self.default or 0, cb)
         if k == 'int':
             return '(int %s %d %d%s)' % (n, self.flags, self.default or 0, cb)
         if k == 'flt':
